@@ -936,3 +936,65 @@ package shwap
 //@   ensures err == nil ==> result0 == RangeNamespaceDataIDV0Size
 //@   ensures err != nil ==> deref(rngid) == old(deref(rngid))
 //@   checks err == nil ==> deref(rngid) == id
+
+// ---------------------------------------------------------------------------------------------
+// C18: the Sample container on the wire. Decoding takes the share, the proof's range / nodes / flag and
+// the axis each from the message's own field (a missing proof message decodes as the zero range, which
+// no verifier accepts); encoding writes the share's bytes, the proof's range / nodes / leaf hash / flag
+// and the axis; decode(encode(s)) carries the same share bytes, range, nodes, flag and axis.
+// (Generated protobuf getters and nmt's constructor / accessors: read from their source, assumed.)
+//@ extern (*github.com/celestiaorg/celestia-node/share/shwap/pb.Sample).GetShare
+//@   ensures result == (m == nil ? nil : m.Share)
+//@ extern (*github.com/celestiaorg/celestia-node/share/shwap/pb.Sample).GetProof
+//@   ensures result == (m == nil ? nil : m.Proof)
+//@ extern (*github.com/celestiaorg/celestia-node/share/shwap/pb.Sample).GetProofType
+//@   ensures result == (m == nil ? 0 : m.ProofType)
+//@ extern (*github.com/celestiaorg/nmt/pb.Proof).GetStart
+//@   ensures result == (m == nil ? 0 : m.Start)
+//@ extern (*github.com/celestiaorg/nmt/pb.Proof).GetEnd
+//@   ensures result == (m == nil ? 0 : m.End)
+//@ extern (*github.com/celestiaorg/nmt/pb.Proof).GetNodes
+//@   ensures m != nil ==> result == m.Nodes
+//@   ensures m == nil ==> len(result) == 0
+//@ extern (*github.com/celestiaorg/nmt/pb.Proof).GetIsMaxNamespaceIgnored
+//@   ensures result <==> (m != nil && m.IsMaxNamespaceIgnored)
+//@ extern github.com/celestiaorg/nmt.NewInclusionProof
+//@   ensures result.start == proofStart && result.end == proofEnd && result.nodes == proofNodes && len(result.leafHash) == 0 && (result.isMaxNamespaceIDIgnored <==> ignoreMaxNamespace)
+//@ extern (github.com/celestiaorg/nmt.Proof).Nodes
+//@   ensures result == proof.nodes
+//@ extern (github.com/celestiaorg/nmt.Proof).LeafHash
+//@   ensures result == proof.leafHash
+//@ extern (github.com/celestiaorg/nmt.Proof).IsMaxNamespaceIDIgnored
+//@   ensures result <==> proof.isMaxNamespaceIDIgnored
+
+//@ func SampleFromProto
+//@   property C18
+//@   nopanic
+//@   ensures err == nil ==> s != nil && s.Share != nil && result0.Share.data == s.Share.Data && result0.Proof != nil
+//@   ensures err == nil ==> result0.ProofType == rsmt2d.Axis(s.ProofType)
+//@   ensures err == nil && s.Proof != nil ==> deref(result0.Proof).start == int(s.Proof.Start) && deref(result0.Proof).end == int(s.Proof.End) && deref(result0.Proof).nodes == s.Proof.Nodes
+//@   ensures err == nil && s.Proof != nil ==> (deref(result0.Proof).isMaxNamespaceIDIgnored <==> s.Proof.IsMaxNamespaceIgnored)
+//@   ensures err == nil && s.Proof == nil ==> deref(result0.Proof).start == 0 && deref(result0.Proof).end == 0 && len(deref(result0.Proof).nodes) == 0
+
+//@ func (Sample).ToProto
+//@   property C18
+//@   requires s.Proof != nil
+//@   ensures result != nil && result.Share != nil && result.Proof != nil
+//@   ensures result.Share.Data == s.Share.data
+//@   ensures result.Proof.Start == int64(deref(s.Proof).start) && result.Proof.End == int64(deref(s.Proof).end) && result.Proof.Nodes == deref(s.Proof).nodes
+//@   ensures result.Proof.LeafHash == deref(s.Proof).leafHash && (result.Proof.IsMaxNamespaceIgnored <==> deref(s.Proof).isMaxNamespaceIDIgnored)
+//@   ensures result.ProofType == pb.AxisType(s.ProofType)
+
+//@ lemma C18_Sample_proto_roundtrip(s Sample)
+//@   property C18
+//@   assume s.Proof != nil && (s.ProofType == rsmt2d.Row || s.ProofType == rsmt2d.Col)
+// (the proof's range are Go ints)
+//@   assume -9223372036854775808 <= deref(s.Proof).start && deref(s.Proof).start <= 9223372036854775807 && -9223372036854775808 <= deref(s.Proof).end && deref(s.Proof).end <= 9223372036854775807
+//@   let p = s.ToProto()
+//@   let back, e = SampleFromProto(p)
+//@   assume e == nil
+//@   assert back.Share.data == s.Share.data
+//@   assert back.Proof != nil && deref(back.Proof).start == deref(s.Proof).start && deref(back.Proof).end == deref(s.Proof).end
+//@   assert deref(back.Proof).nodes == deref(s.Proof).nodes
+//@   assert deref(back.Proof).isMaxNamespaceIDIgnored <==> deref(s.Proof).isMaxNamespaceIDIgnored
+//@   assert back.ProofType == s.ProofType
